@@ -17,7 +17,9 @@ META = dict(
          "independent verifier, against other data and other keys, and after bit flips, truncations, "
          "extensions, algorithm-name edits and malformed inner encodings (incl. ECDSA r/s re-encoded without the "
          "sign-padding byte, i.e. a different, negative value with the same magnitude bytes, checked under every "
-         "object of the key). RSA moduli cover every bit length residue mod 8 in each run. The real verify_ssh_sig answer is "
+         "object of the key). RSA moduli cover every bit length residue mod 8 in each run; genuine ECDSA signatures "
+         "with a short r or s (leading zero byte, blob below the nominal length) are constructed by signing until one "
+         "appears, for every ECDSA key. The real verify_ssh_sig answer is "
          "compared with the independent verdict on the decoded content and every exception escaping it is a "
          "violation. Holds for the executions produced only.",
     note="Trusts cryptography's ECDSA/Ed25519 verification and Python's pow(). Mutations that decode to the "
@@ -410,6 +412,86 @@ def exercise(ctx, fam, n_sigs, n_mut):
                                        mutation=cls, data=data, genuine=sigbytes, altered=mut))
 
 
+# --------------------------------------------------------------------------
+# genuine ECDSA signatures with a SHORT r or s (constructed, not waited for)
+# --------------------------------------------------------------------------
+def short_ecdsa_signatures(ctx, fam, want, max_tries):
+    """Sign fresh random messages with the family's own paramiko signer(s) until `want` signatures have r or s
+    with (at least) one whole leading zero byte below the curve's byte width -- the mpint, and hence the blob, is
+    shorter than usual (about 1 in 128 signatures on P-256/384) -- preferring blobs shorter than the nominal
+    2*(4 + bits//8). Each must verify under every object of the key and under the independent verifier; the same
+    signature over other data and with one flipped bit must not."""
+    rng = ctx.rng
+    bits = fam.pub.curve.key_size
+    limit = 1 << (8 * (bits // 8 - 1))
+    nominal = 2 * (4 + bits // 8)
+    signers = fam.signers()
+    found = []
+    below = 0
+    tries = 0
+    need_below = 1 if bits == 521 else 2  # P-521 signing is ~10x dearer
+    while tries < max_tries and (len(found) < want or below < need_below):
+        s_origin, signer = signers[tries % len(signers)]
+        data = rbytes(rng, 24)
+        tries += 1
+        try:
+            sigbytes = signer.sign_ssh_data(data).asbytes()
+        except Exception as e:
+            ctx.violation("sign_ssh_data raised: " + ko.exc_sig(e), "signing with a signing-capable key raised",
+                          dict(kind=fam.kind, family=fam.label, signer_origin=s_origin, error=repr(e)[:200]))
+            return
+        name, (r, s) = ko.decode_sig(fam.pub, sigbytes)
+        if r >= limit and s >= limit:
+            continue
+        blob_len = len(split_sig(sigbytes)[1])
+        if blob_len >= nominal and len(found) >= want:
+            continue
+        below += blob_len < nominal
+        found.append((s_origin, data, sigbytes, r < limit, s < limit, blob_len))
+    ctx.count("ecdsa_short_search_signatures_made", tries)
+    for s_origin, data, sigbytes, short_r, short_s, blob_len in found:
+        ctx.count("ecdsa_genuine_short_signatures_%d" % bits)
+        if blob_len < nominal:
+            ctx.count("ecdsa_genuine_blob_below_nominal_length_%d" % bits)
+        ctx.count("oracle_evals")
+        if ko.ref_verify(fam.pub, data, sigbytes) is not True:
+            ctx.violation("signature produced by sign_ssh_data rejected by the independent verifier (ecdsa/%s, short r or s)" % fam.kind,
+                          "a short genuine signature does not verify under an independent implementation",
+                          dict(kind=fam.kind, family=fam.label, signer_origin=s_origin, data=data, signature=sigbytes))
+            continue
+        for v_origin, vobj in fam.objs:
+            ctx.case((fam.kind, s_origin, "genuine-short", v_origin, sigbytes),
+                     sample=dict(scenario="genuine, short r or s", kind=fam.kind, family=fam.label, signer=s_origin,
+                                 verifier=v_origin, short_r=short_r, short_s=short_s, blob_length=blob_len,
+                                 nominal_blob_length=nominal, data=data, signature=sigbytes)
+                     if v_origin == "public-bytes" and blob_len < nominal and ctx.shard == 0 else None)
+            r = verify(ctx, vobj, v_origin, fam, data, sigbytes, "genuine-short")
+            ctx.count("genuine_checks")
+            if r is not None:
+                ctx.count("ecdsa_genuine_short_r_or_s_verified_%d" % bits)
+            if r is False:
+                ctx.violation("genuine signature with a short r or s not accepted (ecdsa)",
+                              "a genuine ECDSA signature whose r or s has a zero leading byte does not verify under an object of the same key",
+                              dict(kind=fam.kind, family=fam.label, signer_origin=s_origin, verifier_origin=v_origin,
+                                   short_r=short_r, short_s=short_s, blob_length=blob_len, nominal_blob_length=nominal,
+                                   data=data, signature=sigbytes))
+        # it is still a signature: other data and a flipped bit must fail
+        v_origin, vobj = rng.choice(fam.objs)
+        bad = bytearray(sigbytes)
+        bad[-1 - rng.randrange(8)] ^= 1 << rng.randrange(8)
+        for scen, d2, s2 in (("other-data", data + b"x", sigbytes), ("altered:flip", data, bytes(bad))):
+            ctx.count("oracle_evals")
+            if ko.ref_verify(fam.pub, d2, s2) is not False:
+                continue
+            ctx.case((fam.kind, "short-" + scen, v_origin, s2, d2))
+            r = verify(ctx, vobj, v_origin, fam, d2, s2, scen)
+            ctx.count("forgery_checks")
+            if r is True:
+                ctx.violation("altered signature accepted (ecdsa, short genuine signature, %s)" % scen,
+                              "verify_ssh_sig returned True for a forgery derived from a short genuine signature",
+                              dict(kind=fam.kind, family=fam.label, verifier_origin=v_origin, data=d2, signature=s2))
+
+
 def run(ctx):
     if ctx.guard(ko.selfcheck) is None:
         return
@@ -435,11 +517,16 @@ def run(ctx):
             ctx.count("families_cut_by_time")
             continue
         exercise(ctx, f, n_sigs, n_mut)
+        if f.kind.startswith("ecdsa") and f.signers():
+            short_ecdsa_signatures(ctx, f, want=ctx.pick(3, 8), max_tries=ctx.pick(4000, 12000))
     ctx.require("verify_calls", 3000)
     ctx.require("genuine_checks", 300)
     ctx.require("forgery_checks", 100)
     ctx.require("mutations_judged", 2000)
     ctx.require("oracle_evals", 2000)
+    for bits in (256, 384, 521):
+        ctx.require("ecdsa_genuine_short_r_or_s_verified_%d" % bits, 40)
+        ctx.require("ecdsa_genuine_blob_below_nominal_length_%d" % bits, 3)
     ctx.require("ecdsa_sign_pad_dropped_checks", 150)
     ctx.require("ecdsa_reencoded_value_changed_checks", 600)
     ctx.require("rsa_families_modulus_not_byte_aligned", 5)
